@@ -121,7 +121,7 @@ fn c01_borrowed(rng: &mut Rng, n: u64, small: bool, rep: &mut Report) {
 	bitslices!((u64, Lsb0), (u64, Msb0));
 }
 
-/// Largest representable counts must encode without panicking (thorough, release build).
+/// Largest representable counts must encode without panicking (optimised builds only).
 fn c01_limits(rep: &mut Report) {
 	use bitvec::prelude::*;
 	let r = catch(|| {
@@ -134,6 +134,22 @@ fn c01_limits(rep: &mut Report) {
 		Ok(b) if b == [0x03, 0xff, 0xff, 0xff, 0xff] => {},
 		Ok(b) => rep.violation("wire-format:Vec<()>-max", format!("Vec<()> of 2^32-1 elements encoded as {}", hex(&b)), "{}".into()),
 		Err(p) => rep.violation("encode-panic:Vec<()>-max", format!("Vec<()> of 2^32-1 elements: encode panicked: {p}"), "{}".into()),
+	}
+	for n in [(1usize << 30) - 1, 1 << 30, u32::MAX as usize - 1, u32::MAX as usize] {
+		let r = catch(|| {
+			let v: std::collections::VecDeque<()> = vec![(); n].into();
+			let s: &[()] = &vec![(); n];
+			(v.encode(), s.encode(), s.encoded_size(), v.encoded_size())
+		});
+		rep.evaluations += 1;
+		rep.count("limit_cases");
+		let mut want = Vec::new();
+		compact_encode(n as u128, &mut want);
+		match r {
+			Ok((a, b, la, lb)) if a == want && b == want && la == want.len() && lb == want.len() => {},
+			Ok((a, b, la, lb)) => rep.violation("wire-format:unit-sequences-large", format!("VecDeque<()> / [()] of {n} elements encoded as {} / {} (sizes {la}, {lb})", hex(&a), hex(&b)), "{}".into()),
+			Err(p) => rep.violation("encode-panic:unit-sequences-large", format!("VecDeque<()> / [()] of {n} elements: encode panicked: {p}"), "{}".into()),
+		}
 	}
 	let r = catch(|| {
 		let bv: BitVec<u32, Lsb0> = BitVec::repeat(true, (1 << 29) - 1);
@@ -176,8 +192,10 @@ pub fn c01(ctx: &Ctx) {
 		let mut rng = ctx.rng_for("borrowed");
 		c01_borrowed(&mut rng, ctx.budget(1500, 30_000), ctx.is_slow(), &mut rep);
 	}
-	if ctx.shard == 1 % ctx.nshards && ctx.tier == Tier::Thorough && !ctx.is_slow() {
+	if ctx.shard == 1 % ctx.nshards && !ctx.is_slow() {
+		let t0 = std::time::Instant::now();
 		c01_limits(&mut rep);
+		rep.max("max:limit_cases_ms", t0.elapsed().as_millis() as u64);
 	}
 	finish(ctx, &rep);
 }
